@@ -52,6 +52,8 @@ THEOREMS = [
     "MCHap.C17.trioCode_eq_spec",
     "MCHap.C17.trioCode_sum_one",
     "MCHap.C17.trioCode_positive_iff_trioValid",
+    "MCHap.C17.trioPmf_swap",
+    "MCHap.C17.duo_positive_iff_valid_q",
 ]
 RULE = ("cases: every unordered progeny genotype of (n_alleles 1..4) x (ploidy_p, ploidy_q, tau_p, tau_q) in balanced / mixed-ploidy / "
         "unbalanced / clonal (tau = 0) / unknown-parent configurations x lambda {0, .1, .5} (tau = 2) x errors {0, .01, .5, 1} x "
